@@ -149,3 +149,36 @@ Proof.
   unfold bracket_log. rewrite app_nil_r. intros [H|H]; [discriminate|].
   apply repeat_spec in H. discriminate.
 Qed.
+
+(* ---- every path of a call closes its bracket --------------------------------------------------------- *)
+Lemma body_log_counts stmts : forall pos,
+  pev_count PEnter (body_log 0 pos stmts) = 0 /\ pev_count PExit (body_log 0 pos stmts) = 1.
+Proof.
+  induction stmts as [|o r IH]; intros pos; [split; reflexivity|].
+  destruct o; cbn [body_log Nat.leb]; [|split; reflexivity|split; reflexivity].
+  destruct (IH (S pos)) as [H1 H2]. unfold pev_count in *. cbn [filter]. split; assumption.
+Qed.
+
+Lemma pev_count_app e a b : pev_count e (a ++ b) = pev_count e a + pev_count e b.
+Proof. unfold pev_count. rewrite filter_app, app_length. reflexivity. Qed.
+
+Theorem calls_balanced_lemma (calls : list (list outcome)) :
+  pev_count PEnter (calls_log 0 calls) = length calls /\ pev_count PExit (calls_log 0 calls) = length calls.
+Proof.
+  induction calls as [|c r [IH1 IH2]]; [split; reflexivity|].
+  unfold calls_log in *. cbn [map concat]. rewrite !pev_count_app, IH1, IH2.
+  destruct (body_log_counts c 0) as [H1 H2]. unfold call_log.
+  change (pev_count PEnter (PEnter :: body_log 0 0 c)) with (S (pev_count PEnter (body_log 0 0 c))).
+  change (pev_count PExit (PEnter :: body_log 0 0 c)) with (pev_count PExit (body_log 0 0 c)).
+  rewrite H1, H2. split; reflexivity.
+Qed.
+
+(* every call's own log ends with its exit, whatever path it takes *)
+Theorem call_ends_with_exit_lemma stmts : exists l, call_log 0 stmts = l ++ [PExit].
+Proof.
+  unfold call_log. assert (H : forall pos, exists l, body_log 0 pos stmts = l ++ [PExit]).
+  { induction stmts as [|o r IH]; intros pos; [exists []; reflexivity|].
+    destruct o; cbn [body_log Nat.leb]; [|exists []; reflexivity|exists []; reflexivity].
+    destruct (IH (S pos)) as [l Hl]. exists (PUpdate :: l). rewrite Hl. reflexivity. }
+  destruct (H 0) as [l Hl]. exists (PEnter :: l). rewrite Hl. reflexivity.
+Qed.
